@@ -35,7 +35,13 @@ def one(d):
     wt = f"{tmp}/wt"
     res = {"dir": str(d)}
     try:
-        rc, o = sh(f"git -C {repo} worktree add --detach {wt} HEAD")
+        for _ in range(5):                      # (concurrent `worktree add`s can collide on the repository's lock)
+            rc, o = sh(f"git -C {repo} worktree add --detach {wt} HEAD")
+            if rc == 0:
+                break
+            import time
+            time.sleep(2)
+            sh(f"rm -rf {wt}; git -C {repo} worktree prune")
         assert rc == 0, o
         env = {"PYTHONPATH": wt, "PYTHONDONTWRITEBYTECODE": "1"}
         rc, o = sh(f"{PY} {d}/demo.py", wt, env, 600)
